@@ -159,6 +159,10 @@ fn check_wrong_kind(v: &Value) -> Verdict {
 
 /// scalar round trips other than integers
 fn check_scalar_roundtrip(v: &Value) -> Verdict {
+    // options: Some(v) is v, None is Value::None
+    if !same_value(&Value::from(Some(v.clone())), v, true) || !matches!(Value::from(Option::<Value>::None), Value::None) {
+        return Err(Issue::new("convert:roundtrip:Option", format!("Option<Value> conversion of {} is not the identity", show_value(v))));
+    }
     let fail = |what: &str, got: String| Err(Issue::new(format!("convert:roundtrip:{what}"), format!("{} -> {got}", show_value(v))));
     match v {
         Value::String(s) => {
